@@ -829,7 +829,7 @@ harness! {
 // spec adequacy: the reference loops against the real std (memcmp-backed: tiny bounds)
 
 harness! {
-    /// kind=bounded tier=thorough bound="two u16 slices of len<=3, all element values: ref_lex_cmp/ref_eq vs <[u16]>::cmp / =="
+    /// kind=bounded tier=quick bound="two u16 slices of len<=3, all element values: ref_lex_cmp/ref_eq vs <[u16]>::cmp / =="
     #[kani::unwind(8)]
     fn c16_spec_lex_u16(s) {
         let la: [u16; 3] = [s.u16(), s.u16(), s.u16()];
@@ -845,7 +845,7 @@ harness! {
 }
 
 harness! {
-    /// kind=bounded tier=thorough bound="two u8 slices of len<=2, all byte values: ref_lex_cmp/ref_eq vs <[u8]>::cmp / == (memcmp)"
+    /// kind=bounded tier=quick bound="two u8 slices of len<=2, all byte values: ref_lex_cmp/ref_eq vs <[u8]>::cmp / == (memcmp)"
     #[kani::unwind(8)]
     fn c16_spec_lex_u8(s) {
         let la: [u8; 2] = s.bytes();
@@ -861,7 +861,7 @@ harness! {
 }
 
 harness! {
-    /// kind=bounded tier=thorough bound="two valid UTF-8 strings of <=2 bytes: byte-wise reference vs str::cmp / =="
+    /// kind=bounded tier=quick bound="two valid UTF-8 strings of <=2 bytes: byte-wise reference vs str::cmp / =="
     #[kani::unwind(8)]
     fn c16_spec_str(s) {
         let ls = BStr::<2>::any(s);
@@ -874,7 +874,7 @@ harness! {
 }
 
 harness! {
-    /// kind=bounded tier=thorough bound="two slices of <=2 strings of <=1 byte each: nested reference vs <[&str]>::cmp / =="
+    /// kind=bounded tier=quick bound="two slices of <=2 strings of <=1 byte each: nested reference vs <[&str]>::cmp / =="
     #[kani::unwind(8)]
     fn c16_spec_slice_str(s) {
         let (a0, a1, b0, b1) = (BStr::<1>::any(s), BStr::<1>::any(s), BStr::<1>::any(s), BStr::<1>::any(s));
